@@ -92,12 +92,51 @@ def _guard(rd: Reader):
               if "FileInterfaceException" in (e.data.get("exc_name") or "")]
     first_len = tm.call(tm.glob("builtins.len"),
                         (tm.sub(rd.raw, const(0)),), ())
+    nonempty = tm.call(tm.glob("builtins.len"), (rd.raw,), ())
     for e in raises:
         for a in tm.atoms(e.live):
-            if a.op == "cmp" and a.args[1] is first_len and \
-                    tm.is_const(a.args[2]):
-                return a.args[0], a.args[2].args[1], e, a
+            if a.op != "cmp" or a.args[0] not in NEGATED:
+                continue
+            n = (a.args[1], a.args[0], a.args[2])
+            if n[2] is first_len:
+                n = (n[2], FLIPPED[n[1]], n[0])
+            if n[0] is not first_len or not tm.is_const(n[2]) \
+                    or not isinstance(n[2].args[1], int):
+                continue
+
+            def rows_read(t, v):
+                if t is a:
+                    return v
+                if t is rd.raw:
+                    return True
+                if t.op == "cmp" and t.args[1] is nonempty:
+                    return True if t.args[0] in ("Gt", "NotEq", "GtE") \
+                        else None
+                if t.op == "exc":
+                    return False
+                return None
+            on_true = tm.fold(e.live, lambda t: rows_read(t, True))
+            on_false = tm.fold(e.live, lambda t: rows_read(t, False))
+            if on_true is True and on_false is False:
+                rel, bad = n[1], True
+            elif on_true is False and on_false is True:
+                rel, bad = NEGATED[n[1]], False
+            else:
+                continue
+            c = n[2].args[1]
+            # len() is an integer: <= c is < c+1, >= c is > c-1
+            if rel == "LtE":
+                rel, c = "Lt", c + 1
+            elif rel == "GtE":
+                rel, c = "Gt", c - 1
+            return rel, c, e, a, bad
     return None
+
+
+FLIPPED = {"Eq": "Eq", "NotEq": "NotEq", "Lt": "Gt", "Gt": "Lt",
+           "LtE": "GtE", "GtE": "LtE"}
+NEGATED = {"Eq": "NotEq", "NotEq": "Eq", "Lt": "GtE", "GtE": "Lt",
+           "Gt": "LtE", "LtE": "Gt"}
 
 
 def check(ctx):
@@ -140,7 +179,7 @@ def check(ctx):
                f"{'exactly' if grel == 'NotEq' else 'at least'} {gconst} "
                f"columns", key=f"C07.5:{name}:column-guard")
         if g is not None:
-            _, _, ge, ga = g
+            _, _, ge, ga, gbad = g
             empt = any(a is rd.raw or (a.op == "not" and a.args[0] is rd.raw)
                        for a in tm.atoms(ge.live)) or any(
                 is_call_to(a, "builtins.len") for a in tm.atoms(ge.live))
@@ -150,7 +189,7 @@ def check(ctx):
 
             def wrong_cols(t: T):
                 if t is ga:
-                    return True
+                    return gbad
                 if t is rd.raw:
                     return True            # rows were read ...
                 if t.op == "cmp" and t.args[1] is nonempty:
@@ -320,6 +359,38 @@ def check(ctx):
                         if bottom != [0, 0, 0, 1]:
                             ok = False
                             why = f"bottom row {bottom}"
+                elif is_call_to(m, "numpy.vstack") and len(m.args[1]) == 1 \
+                        and m.args[1][0].op in ("tuple", "list") and \
+                        len(m.args[1][0].args) == 2:
+                    # np.vstack((row.reshape(3, 4), [0, 0, 0, 1]))
+                    top, bot = m.args[1][0].args
+                    shp = None
+                    if is_call_to(top, ".reshape") and \
+                            tm.method_recv(top) is row:
+                        a_ = top.args[1]
+                        if len(a_) == 1 and a_[0].op == "tuple":
+                            a_ = a_[0].args
+                        shp = [x.args[1] if tm.is_const(x) else None
+                               for x in a_]
+                        order = dict(top.args[2]).get("order")
+                        if order is not None and not tm.is_const(order, "C"):
+                            shp = ("order", fmt(order))
+                    bottom = [x.args[1] if tm.is_const(x) else None
+                              for x in bot.args] if bot.op == "list" else None
+                    if shp is None or bottom is None:
+                        ok = None
+                    elif shp != [3, 4]:
+                        why = f"row reshaped to {shp}, expected (3, 4)"
+                    elif bottom != [0, 0, 0, 1]:
+                        why = f"bottom row {bottom}"
+                    else:
+                        ok = True
+                else:
+                    ok = None
+            else:
+                ok = None
+            ctx.require(ok is not None, f"KITTI reader: pose construction "
+                        f"not recognised (unknown idiom): {why}")
             ctx.ob("C07.1", rd.f, ok,
                    "KITTI: pose entry (i, j) <- column 4i+j (row-major "
                    "3x4), bottom row 0 0 0 1, one pose per row in order"
@@ -408,16 +479,24 @@ def _csv(ctx, prog):
     f = prog.func(FI + "csv_read_matrix")
     r = Interp(prog).run(f)
     ret = r.ret
-    alts = [a for a in tm.strip_ite(ret) if a.op == "comp"]
+    alts = [a for a in tm.strip_ite(ret)
+            if a.op == "comp" or is_call_to(a, "builtins.list")]
     ctx.require(len(alts) == 2, "csv_read_matrix: handle and path branches "
                 "not found (unknown idiom)")
 
     def shape(c: T):
         """(source, filter conds, delimiter) of
         [row for row in csv.reader((l for l in SRC if ...), delimiter=d)]"""
-        (it, lid), = c.args[2]
-        if c.args[3] or c.args[1] is not T("elem", it, lid):
-            return None
+        if c.op == "call":                 # list(csv.reader(...))
+            if len(c.args[1]) != 1 or c.args[2]:
+                return None
+            it = c.args[1][0]
+        else:                              # [row for row in csv.reader(...)]
+            if len(c.args[2]) != 1:
+                return None
+            (it, lid), = c.args[2]
+            if c.args[3] or c.args[1] is not T("elem", it, lid):
+                return None
         if not is_call_to(it, "csv.reader") or not it.args[1]:
             return None
         g = it.args[1][0]
@@ -632,6 +711,26 @@ def _messages(ctx, prog):
 
 
 VARIANTS = [
+    dict(name="kitti-vstack-idiom", file="evo/tools/file_interface.py",
+         find="    poses = [np.array([[r[0], r[1], r[2], r[3]],\n"
+              "                       [r[4], r[5], r[6], r[7]],\n"
+              "                       [r[8], r[9], r[10], r[11]],\n"
+              "                       [0, 0, 0, 1]]) for r in mat]",
+         replace="    poses = [np.vstack((r.reshape(3, 4), [0, 0, 0, 1])) for r in mat]",
+         expect="silent"),
+    dict(name="kitti-vstack-transposed", file="evo/tools/file_interface.py",
+         find="    poses = [np.array([[r[0], r[1], r[2], r[3]],\n"
+              "                       [r[4], r[5], r[6], r[7]],\n"
+              "                       [r[8], r[9], r[10], r[11]],\n"
+              "                       [0, 0, 0, 1]]) for r in mat]",
+         replace="    poses = [np.vstack((r.reshape(3, 4, order='F'), [0, 0, 0, 1])) for r in mat]",
+         expect="fire", rule="C07.1"),
+    dict(name="csv-list-idiom", file="evo/tools/file_interface.py",
+         find="        reader = csv.reader(generator, delimiter=delim)\n"
+              "        mat = [row for row in reader]\n"
+              "    elif",
+         replace="        mat = list(csv.reader(generator, delimiter=delim))\n"
+                 "    elif", expect="silent"),
     dict(name="roll-direction-reader-and-writer",
          edits=[("evo/tools/file_interface.py",
                  "    quat = np.roll(quat, 1, axis=1)  # shift 1 column -> w in front column",
